@@ -1,5 +1,5 @@
 PROP = {
-    "coq": ["C07"],
+    "coq": ["C07", "C07b"],
     "exhaustive": False,
     "rule": "timed (REAL time, timeout 150 ms; thorough: 100/150/250 ms): one public client call (8 small read/write operations, valid "
             "arguments) against a peer that plays a timed stream, on: tcp and rtuovertcp (19200, 115200 bps) attached to the scripted "
@@ -17,12 +17,26 @@ PROP = {
             "duration verdict: intime iff the call returned within the model's configuration-only bound (MBAP: timeout; RTU: max(timeout+g, "
             "t35+n*t1+t35) + 256*t1 + 500us + g, g = 10 ms on the pty else 0; printed and compared with the extracted bound) + 150 ms "
             "scheduling slack, early if a timeout came before the timeout had elapsed, hang if a 6 x timeout watchdog fired. "
-            "P = outcome, verdict and bound equal the model's.",
+            "P = outcome, verdict and bound equal the model's. "
+            "noread (REAL time; a peer that stops READING): N calls of one operation in a row on one connection; the peer reads and "
+            "answers the first 0..2 requests, then keeps the connection open but neither reads nor sends, and the link takes only `room` "
+            "more bytes - a request that does not fit blocks in Write until the i/o deadline. Scripted connection (sconn.NoRead; tcp, "
+            "rtuovertcp 19200/115200; timeout 120 ms, thorough 80/120/200): room = 0, less than one request, exactly one, one and a "
+            "part, two and a part; a Write with no write deadline armed blocks until the connection is closed, like a socket. Real "
+            "loopback TCP (harness-dialled socket with a 4 kB send buffer, fake device with a 2 kB receive buffer; tcp, rtuovertcp): "
+            "buffers filled to the last byte by the harness before the first dead call (timeout 60 ms), and buffers filling up with 72 "
+            "maximum-size WriteRegisters requests (timeout 25 ms). Observables per call: outcome, duration verdict (intime iff within "
+            "the same bound + 400 ms slack; hang if a bound + 1 s watchdog fired), whether the Write found the link full (scripted "
+            "only), bytes taken by the link; expected values from the extracted tm_session_w (Model/TimedWrite.v): request-timed-out "
+            "for every dead call whatever the room (c07b_dead_peer_*), the w flag and byte count from the room accounting, and the "
+            "measured duration at most the predicted return (loopback: the bound) + slack.",
     "assumptions": [
         "physical assumption: finitely many bytes arrive in finite time (the peer is a finite timed stream; only bytes arriving before "
         "the deadline plus the flush window matter)",
         "Go's net.Conn deadlines, time.Sleep and the pty/serial driver behave like read_full_t / tm_sleep up to scheduling slack "
-        "(150 ms allowed); statements take no time and Write does not block (kernel buffered) in the model",
+        "(150 ms allowed); statements take no time; Write returns at once while the request fits into what the link still takes and "
+        "otherwise blocks until the write deadline (Model/TimedWrite.v; net.Conn write deadlines validated by the noread scenario on "
+        "loopback TCP); the serial wrapper has no write deadline (a serial line drains at its own rate) and is not run with a blocked Write",
         "the pre-send wait assumes rt.lastActivity is not in the future (la <= t0): it is then at most t35",
         "serial wrapper variant: every byte is delivered by its own Read (finest chunking); rates >= 9600 bps in the harness",
     ],
@@ -38,12 +52,15 @@ CLAIM = {
             "transport timeout is never reported before the deadline; the timed call returns exactly what the untimed client of C01/C02 "
             "returns on the bytes that arrived by the deadline, hence a valid reply (after skippable frames on MBAP, at the start of the "
             "stream on RTU) whose last byte arrives by the deadline is accepted with its values and never turned into a timeout; every "
-            "iteration of the skip loop consumes at least 8 bytes, so the loop terminates (no fuel artefact, no panic). The real client is "
+            "iteration of the skip loop consumes at least 8 bytes, so the loop terminates (no fuel artefact, no panic). A peer that stops "
+            "READING (C07b): the same bounds hold for every amount of room left in the link and every session of calls; a request that "
+            "does not fit yields request-timed-out at the deadline; a dead peer yields request-timed-out on every call. The real client is "
             "run in real time against scripted peers of every behaviour class on seven transports and compared with the model's outcome "
             "and bound on every run.",
     "note": "PARTIAL: that Go's net.Conn deadlines, time.Sleep, the kernel sockets and the pty/serial driver behave like the model's "
             "read_full_t / sleep (within 150 ms scheduling slack) is validated by the timed harness, not proved; statement execution time "
-            "and Write are instantaneous in the model. tcp+tls is not run (tlsSockWrapper.Read/SetDeadline are pass-throughs to the same "
+            "is instantaneous in the model, and so is a Write that fits into the link (one that does not blocks until the deadline, "
+            "C07b); the serial wrapper arms no write deadline and is not run against a blocked Write. tcp+tls is not run (tlsSockWrapper.Read/SetDeadline are pass-throughs to the same "
             "net.Conn deadline mechanism); the physical serial line is replaced by a pseudo-terminal. Trusted: kernel, extraction, "
             "modeld glue (ocaml/scn_timed.ml), Go harness (c07.go), VerifNewClientOnConn / VerifSerialTimings hooks.",
     "technique": "Coq proof (induction over the timed stream; simulation of the timed by the untimed model on the prefix arrived by the "
